@@ -148,6 +148,15 @@ def make_case(idx):
             steps.append(('N', cnt, None, None))
         else:
             steps.append(('^A', cnt if cnt != '3' else '', None, None))
+    if R.random() < 0.2:
+        # between searches: the ignore-case option is switched (the pattern stays, its meaning changes), or a search prompt of either
+        # direction is opened and given up (nothing was searched: direction, pattern and offset stay what they were)
+        extra = []
+        for st in steps:
+            extra.append(st)
+            if R.random() < 0.5:
+                extra.append(R.choice([('ic', '', None, None), ('noic', '', None, None), ('cancel/', '', None, None), ('cancel?', '', None, None), ('cancel?', 'x', None, None), ('cancel/', 'ab', None, None)]))
+        steps = extra
     if R.random() < 0.12 and steps[0][0] in '/?':
         # directed family: an offset search, then searches that carry no offset of their own
         c0, n0, a0, _ = steps[0]
@@ -165,6 +174,10 @@ def keys_of(case):
     for cmd, cnt, ast, so in case['steps']:
         if cmd in '/?':
             k += cnt.encode() + cmd.encode() + (typed_pat(ast, cmd).encode('utf-8') if ast is not None else b'') + ((cmd + so).encode() if so else ((cmd + ['', '', ' ', '\t', '  '][case['idx'] % 5]).encode() if case['idx'] % 3 == 0 else b'')) + b'\n'      # (closing delimiter: optional; blanks after it are no offset)
+        elif cmd in ('ic', 'noic'):
+            k += b':se ' + cmd.encode() + b'\n'
+        elif cmd.startswith('cancel'):
+            k += cmd[-1].encode() + cnt.encode() + b'\x1b'
         elif cmd == '^A':
             k += cnt.encode() + b'\x01'
         else:
@@ -182,6 +195,11 @@ def simulate(case, variant=None):
     moved = False
     soset, sov = False, 0
     for cmd, cnt, ast, so in case['steps']:
+        if cmd in ('ic', 'noic'):
+            M.icase = cmd == 'ic'
+            continue
+        if cmd.startswith('cancel'):
+            continue
         n = int(cnt) if cnt else 1
         if cmd in '/?':
             # a line offset after the closing delimiter turns the search into a line motion to (match line + offset); n and N keep it
